@@ -52,6 +52,10 @@ fn seed_static(s: &str) -> &'static str {
             return n;
         }
     }
+    if s.starts_with("fresh:") {
+        // a model created on the spot ("fresh:<locale>/<language>"); leaked once per replay
+        return Box::leak(s.to_string().into_boxed_str());
+    }
     "empty"
 }
 
@@ -65,6 +69,24 @@ pub fn explore<R: Send>(
     cfg: &HistCfg,
     len: usize,
     judge: &(dyn Fn(&'static str, &[Op]) -> Option<R> + Sync),
+) -> (Vec<R>, HistStats, Vec<String>) {
+    explore_opt(cfg, len, judge, true)
+}
+
+/// Like `explore`, but operations that return an error do not cut a history (the judge decides).
+pub fn explore_permissive<R: Send>(
+    cfg: &HistCfg,
+    len: usize,
+    judge: &(dyn Fn(&'static str, &[Op]) -> Option<R> + Sync),
+) -> (Vec<R>, HistStats, Vec<String>) {
+    explore_opt(cfg, len, judge, false)
+}
+
+fn explore_opt<R: Send>(
+    cfg: &HistCfg,
+    len: usize,
+    judge: &(dyn Fn(&'static str, &[Op]) -> Option<R> + Sync),
+    prefix_must_succeed: bool,
 ) -> (Vec<R>, HistStats, Vec<String>) {
     assert!(len >= 1);
     let a = cfg.alphabet.len();
@@ -85,7 +107,7 @@ pub fn explore<R: Send>(
         };
         let mut outs = vec![];
         // prefix must be all-Ok
-        if !prefix.is_empty() {
+        if !prefix.is_empty() && prefix_must_succeed {
             let (_, fail) = replay(seed, &prefix);
             if fail.is_some() {
                 st.words_cut += a as u64;
